@@ -310,6 +310,31 @@ PROPS["C16"] = {
     "thorough": {"scale": 12, "shards": 16, "timeout": 1500},
 }
 
+PROPS["C17"] = {
+    "pkg": "c17",
+    "variants": [
+        {"name": "bubble", "synctest": True, "kinds": ["c17.once-bubble", "c17.sema-bubble"]},
+        {"name": "stress", "race": True, "kinds": ["c17.once-stress", "c17.sema-stress"], "shards": {"thorough": 8}},
+    ],
+    "technique": "generated concurrent programs: (1) harness-gated scripts inside a testing/synctest bubble with exact quiescence and virtual time, (2) barrier-start real-thread stress under the race detector; call-count, result-identity, progress and holder-count invariants",
+    "level_text": ("Exploration of schedules with two drivers. Bubble driver: rapid draws keys, goroutines and a script interleaving {start goroutine, open the "
+                   "construction gate of a key} (semaphore: {start, let holder release, cancel context, advance virtual time past deadlines}); after every step "
+                   "synctest.Wait() gives exact quiescence, so 'every caller arrived while construction is in progress' is constructed, not hoped for. Invariants "
+                   "at every quiescent point: constructions(k) <= 1; a goroutine is blocked in Get(k) only while k's own gate is closed (a slow key does not block "
+                   "another); all results for k are the single token; holders <= capacity; a waiter with a done context has returned exactly ctx.Err(); a waiter "
+                   "with a live context exists only while all slots are held; Release on an empty semaphore returns. Stress driver: the same programs with real "
+                   "goroutines, start barrier, 15-25 trials each, GOMAXPROCS 2/16, under -race: constructions == 1, identical result pointer, holder high-water "
+                   "mark <= capacity, no race report."),
+    "level_note": "Trusted: testing/synctest of go1.24.2 (GOEXPERIMENT=synctest) and the race detector. Semaphore programs are proper-use (only holders release). Not all interleavings are covered: the Go scheduler picks them in the stress driver; the bubble driver owns arrival order and quiescence but not preemption points inside Get.",
+    "rule": ("Non-trivial: bubble/once = at some quiescent point at least two goroutines were blocked in Get of the same key while its construction was in progress; "
+             "bubble/sema = a waiter existed while all slots were held; stress/once = some key requested by >= 2 goroutines; stress/sema = all slots held with more "
+             "goroutines than slots. distinct = distinct program (script)."),
+    "assumptions": ["with a free slot and an already-done context Acquire may return either nil or the context's error (select picks either); not asserted"],
+    "expect_classes": {"once:>=2-callers-arrived-during-construction": ("c17.once-bubble", 0.3), "sema:waiter-while-all-slots-held": ("c17.sema-bubble", 0.3)},
+    "quick": {"scale": 1, "shards": 1, "timeout": 600},
+    "thorough": {"scale": 4, "shards": 8, "timeout": 1500},
+}
+
 ALL_IDS = ["C%02d" % i for i in range(1, 21)]
 NOT_APPLICABLE = [
     {"property_id": pid, "reason": "check not built yet in this revision of the harness (work in progress; see DESIGN.md section 9)"}
